@@ -1490,7 +1490,7 @@ func judgeView(o *engine.Outcome, w *world, d *spec.Design, s *spec.Service, m *
 		o.Violate("view_header", "view_header:"+sig, "%s: rendered view %q but the goa-view header says %q", where, rendered, hv)
 	}
 	for _, e := range wireKeys(d, ex.RespBody, u, rendered, sent, "body") {
-		if sameTypeTwoViews && (strings.Contains(e, "body.sibling") || strings.Contains(e, "body.child")) {
+		if sameTypeTwoViews && underAffected(memoAffected(d, u, rendered), e) {
 			o.Violate("view_wire", "view:same-nested-type-under-two-views", "%s: view %q: %s\n  full value %s\n  body %q", where, rendered, e, gen.Show(sent), clipS(string(ex.RespBody)))
 			return
 		}
@@ -1538,7 +1538,7 @@ func judgeView(o *engine.Outcome, w *world, d *spec.Design, s *spec.Service, m *
 	got := gen.FromGo(d, reflect.ValueOf(res), m.Result.Type)
 	want := gen.Expected(d, gen.Project(d, sent, u, rendered), &spec.Attr{Type: &spec.Type{Kind: spec.Object, Fields: u.Attr.Type.Fields}})
 	gotIn := gen.Project(d, got, u, rendered)
-	if diff := gen.Diff(want, gotIn, ""); diff != "" && sameTypeTwoViews && (strings.HasPrefix(diff, "sibling") || strings.HasPrefix(diff, "child")) {
+	if diff := gen.Diff(want, gotIn, ""); diff != "" && sameTypeTwoViews && underAffected(memoAffected(d, u, rendered), strings.TrimPrefix(diff, ".")) {
 		o.Violate("view_value", "view:same-nested-type-under-two-views", "%s: view %q: %s", where, rendered, diff)
 	} else if diff != "" {
 		o.Violate("view_value", "view_value:"+sig, "%s: view %q: %s\n  service returned %s\n  client rebuilt   %s", where, rendered, diff, gen.Show(sent), gen.Show(got))
@@ -1797,6 +1797,58 @@ func sameNestedTypeTwoViews(d *spec.Design, x *spec.UserType) bool {
 	for _, top := range x.Views {
 		seen := map[string]bool{}
 		if memoHit(d, x, top.Name, seen, 0) {
+			return true
+		}
+	}
+	return false
+}
+
+// memoAffected lists the attribute paths (a.b.c from the result's top level) that the recorded projection
+// defect misrenders when the result type u is rendered with view: the same replay of the memo as memoHit,
+// for one top view, keeping WHERE the wrong projection lands.
+func memoAffected(d *spec.Design, u *spec.UserType, view string) []string {
+	var out []string
+	seen := map[string]bool{}
+	var walk func(u *spec.UserType, view, path string, depth int)
+	walk = func(u *spec.UserType, view, path string, depth int) {
+		vw := gen.ViewOf(u, view)
+		if vw == nil || depth > 8 {
+			return
+		}
+		for _, name := range vw.Fields {
+			f := u.Attr.Type.Field(name)
+			if f == nil || f.Type.Kind != spec.User {
+				continue
+			}
+			nu := d.UserType(f.Type.Name)
+			if nu == nil || !nu.IsResult {
+				continue
+			}
+			own := vw.NestedView(f)
+			if own == "" {
+				own = "default"
+			}
+			p := strings.TrimPrefix(path+"."+name, ".")
+			if seen[nu.Name+"::"+view] {
+				if own != view {
+					out = append(out, p)
+				}
+				continue
+			}
+			seen[nu.Name+"::"+own] = true
+			walk(nu, own, p, depth+1)
+		}
+	}
+	walk(u, view, "", 0)
+	return out
+}
+
+// underAffected reports whether a complaint about path (with or without a leading "body.") concerns an
+// attribute the recorded projection defect misrenders.
+func underAffected(affected []string, complaint string) bool {
+	c := strings.TrimPrefix(complaint, "body.")
+	for _, a := range affected {
+		if c == a || strings.HasPrefix(c, a+".") || strings.HasPrefix(c, a+" ") || strings.HasPrefix(c, a+"[") || strings.HasPrefix(c, a+":") {
 			return true
 		}
 	}
